@@ -141,10 +141,28 @@ class Interp:
             return True
         if isinstance(n, ast.IfExp):
             return self.ev(n.body) if self.ev(n.test) else self.ev(n.orelse)
-        if isinstance(n, ast.Tuple):
-            return tuple(self.ev(e) for e in n.elts)
-        if isinstance(n, ast.List):
-            return [self.ev(e) for e in n.elts]
+        if isinstance(n, ast.Lambda):
+            outer = self
+
+            def lam(*args, _fn=n):
+                params = [a.arg for a in _fn.args.posonlyargs + _fn.args.args]
+                env = dict(outer.env)
+                for a, d in zip(reversed(params), reversed(_fn.args.defaults)):
+                    env[a] = outer.ev(d)
+                env.update(dict(zip(params, args)))
+                sub = type(outer)(env, call_hook=outer.call_hook, attr_hook=outer.attr_hook)
+                if hasattr(outer, 'resolver'):
+                    sub.resolver = outer.resolver
+                return sub.ev(_fn.body)
+            return lam
+        if isinstance(n, (ast.Tuple, ast.List)):
+            out = []
+            for e in n.elts:
+                if isinstance(e, ast.Starred):
+                    out.extend(list(self.ev(e.value)))
+                else:
+                    out.append(self.ev(e))
+            return tuple(out) if isinstance(n, ast.Tuple) else out
         if isinstance(n, ast.Subscript):
             if self.cell_key is not None:
                 k = self.cell_key(n, self)
@@ -416,7 +434,7 @@ class NumInterp(Interp):
                     else:
                         raise Unsupported(f'isinstance against {ts}')
                 return res
-            if isinstance(n.func, ast.Attribute) and n.func.attr in ('join', 'split', 'startswith', 'endswith', 'strip', 'items', 'keys', 'values', 'get', 'index', 'count', 'upper', 'lower', 'format', 'replace',
+            if isinstance(n.func, ast.Attribute) and n.func.attr in ('join', 'split', 'rsplit', 'partition', 'rpartition', 'startswith', 'endswith', 'strip', 'items', 'keys', 'values', 'get', 'index', 'count', 'upper', 'lower', 'format', 'replace',
                                                                          'removeprefix', 'removesuffix', 'reverse', 'extend', 'zfill', 'rjust', 'ljust', 'copy', 'tolist'):
                 try:
                     recv = self.ev(n.func.value)
